@@ -79,7 +79,7 @@ def is_basic_item(it):
         return True
     if is_const(it):
         return it[1] == "int"
-    if is_tag(it, "lv"):
+    if is_tag(it, "lv", "blk", "bv"):
         return True
     if is_tag(it, "s"):
         return True
@@ -248,6 +248,17 @@ def show(t, depth=0):
         return t[1]
     if k == "lv":
         return "j%d" % t[1]
+    if k == "blk":
+        return "task%d" % t[1]
+    if k == "bv":
+        return "k%d" % t[1]
+    if k == "lin":
+        parts = [f"{show(x, d)}" if v == 1 else f"{v}*{show(x, d)}" for x, v in t[2]] + ([repr(t[1])] if t[1] else [])
+        return "(" + " + ".join(parts) + ")"
+    if k == "rnd":
+        return f"{t[1]}({show(t[2], d)})"
+    if k == "comp":
+        return f"[{show(t[1], d)} for k in range({show(t[2], d)})]"
     if k == "bin":
         return f"({show(t[2], d)} {_OPS.get(t[1], t[1])} {show(t[3], d)})"
     if k == "un":
@@ -440,6 +451,12 @@ class World:
         if len(body_stmts) == 1 and isinstance(body_stmts[0], ast.Return):
             out.add("trivial")
         for n in ast.walk(fn):
+            if isinstance(n, ast.Return) and n.value is not None:
+                v = n.value
+                fx = v.func if isinstance(v, ast.Call) else None
+                last = fx.attr if isinstance(fx, ast.Attribute) else (fx.id if isinstance(fx, ast.Name) else None)
+                if isinstance(v, (ast.GeneratorExp, ast.ListComp)) or last in ("zip", "enumerate", "range", "map", "iter", "reversed", "pairwise", "repeat"):
+                    out.add("iter")     # hands back an iterable description (task lists, block edges): followed so that its structure is seen
             if isinstance(n, (ast.For, ast.While)) or (isinstance(n, ast.Subscript) and isinstance(n.ctx, ast.Store)) or \
                     (isinstance(n, ast.AugAssign) and not isinstance(n.target, ast.Name)):
                 out.add("stores")       # fills arrays itself: followed, so that a loop moved into a helper is still seen
